@@ -428,14 +428,20 @@ struct StringStream {
         constexpr SizeT size = sizeof(Char_T);
         Char_T         *str  = Storage();
 
+#ifdef QENTEM_VERIF
+        allocate(new_capacity); // verification hook: exact-fit growth
+#else
         allocate(new_capacity * SizeT{4});
+#endif
 
         Memory::Copy(Storage(), str, (Length() * size));
         Memory::Deallocate(str);
     }
 
     void allocate(SizeT size) {
+#ifndef QENTEM_VERIF
         size = Memory::AlignSize(size);
+#endif
 
         setStorage(Memory::Allocate<Char_T>(size));
 
